@@ -409,3 +409,61 @@ def check_is_empty(prog):
             obs.append(bad(RULE, key, site(f), "%s overrides is_empty() but does not compute `self.len() == 0`: %s; consumers "
                            "(ArrValue::extended, flattenArrays, manifesters) would disagree with len()" % (tname, why)))
     return obs
+
+
+def run_cheap(prog):
+    """`is_cheap()` promises that get_cheap() answers every index; a view that forwards get_cheap to inner arrays can promise that
+    only if *all* of them do: wherever is_cheap can return true, is_cheap() of every inner ArrValue field is known to be true."""
+    obs = []
+    AV = "jrsonnet_evaluator::arr::ArrValue"
+    fields_of = {}
+    for unit, a in prog.adts():
+        fs = [fl["name"] for v in a.get("variants", []) for fl in v.get("fields", []) if fl.get("ty") == AV]
+        if fs:
+            fields_of[a["path"]] = fs
+    n = 0
+    for p, f in sorted(prog.fns.items()):
+        if f.kind == "Closure" or not f.impl_trait or not f.impl_trait.endswith("arr::spec::ArrayLike") or not p.endswith("::is_cheap"):
+            continue
+        inner = fields_of.get(f.self_ty)
+        if not inner:
+            continue
+        n += 1
+        key = "%s:is_cheap:conjunction" % short_path(f.self_ty)
+
+        def known_true(b):
+            out = set()
+            for u, v, (d, val) in f.facts_at(b):
+                sd = strip(d)
+                if val is True and sd[0] == "call" and str(sd[1]).endswith("ArrValue::is_cheap") and sd[2]:
+                    a = strip(sd[2][0])
+                    while a[0] in ("ref", "deref"):
+                        a = a[1]
+                    if a[0] == "field":
+                        out.add(a[2])
+            return out
+
+        problems = []
+        for b in sorted(f.live_blocks):
+            if f.is_cleanup(b):
+                continue
+            for s in f.stmts(b):
+                if s[0] == "a" and s[1] == [0] and s[2][0] == "use" and s[2][1][0] == "c" and s[2][1][2] in (1, True):
+                    miss = [x for x in inner if x not in known_true(b)]
+                    if miss:
+                        problems.append("returns true without knowing that %s is cheap" % ", ".join("self." + x for x in miss))
+            t = f.term(b)
+            if isinstance(t, dict) and t["k"] == "call" and t["dest"] == [0] and (t.get("res") or t.get("fn") or "").endswith("ArrValue::is_cheap"):
+                a = strip(f.desc_op(t["args"][0]))
+                while a[0] in ("ref", "deref"):
+                    a = a[1]
+                this = a[2] if a[0] == "field" else None
+                miss = [x for x in inner if x != this and x not in known_true(b)]
+                if miss:
+                    problems.append("returns self.%s.is_cheap() without knowing that %s is cheap" % (this, ", ".join("self." + x for x in miss)))
+        if problems:
+            obs.append(bad(RULE, key, site(f), "%s::is_cheap %s: get_cheap() of the other part returns None and the eager-copy paths that rely on is_cheap() panic"
+                           % (short_path(f.self_ty), "; ".join(sorted(set(problems))))))
+        else:
+            obs.append(ok(RULE, key, site(f), "is_cheap() is true only if every inner array (%s) is cheap" % ", ".join(inner)))
+    return obs, [Floor(RULE, "views with inner arrays", n, 3)], {}
